@@ -107,6 +107,9 @@ package keeper
 //@ func (Keeper).MintCoins
 //@ forall d Str
 //@ supply-wrapper
+// C18: block functions hand it valid coins only (a listed coin with amount zero is passed on to the bank, which
+// rejects it - and the block function returns that error).
+//@ requires C18/minted-coins-are-valid: allOf(amt, c, c.Amount > 0)
 //@ mints C15/forwards-argument-without-ledger-denoms: amt(amt, d) != 0 && d != ptypes.Eden && d != ptypes.EdenB
 //@ modifies module:commitment, bank
 
